@@ -151,7 +151,7 @@ Definition op_ok (st : sst) (o : op) : bool :=
   match o with
   | OCreate data block => (N.of_nat (length data) + 1 + block <? 4294967296)%N
   (* a second buffer / a copy is made with wbxml_buffer_create: its size computation must not wrap *)
-  | ODuplicate | OSplitWords => (n + 22 <? 4294967296)%N
+  | ODuplicate | OSplitWords => (n + n + 22 <? 4294967296)%N
   | OInsert src _ | OAppend src | OCompare src | OSearch src _ => (N.of_nat (length src) + 22 <? 4294967296)%N
   | ODelete pos k => snd st || (n <=? pos)%N || (k =? 0)%N || (pos + k <=? n)%N
   | _ => true
